@@ -45,12 +45,12 @@ CHECK = {
          "params": {"mode": "valid", "maxVerts": {"quick": 600, "thorough": 3000}},
          "env": {"ASAN_OPTIONS": _ASAN}, "case_timeout": 120},
         {"name": "reuse", "variant": "asan", "harness": "c10_triangulate.cpp",
-         "cases": {"quick": 2000, "thorough": 10000},
+         "cases": {"quick": 2000, "thorough": 3000},
          "params": {"mode": "reuse", "maxVerts": {"quick": 400, "thorough": 2000}, "seqLen": {"quick": 10, "thorough": 16},
                     "minRing": 2},
          "env": {"ASAN_OPTIONS": _ASAN}, "case_timeout": 120},
         {"name": "garbage", "variant": "asan", "harness": "c10_triangulate.cpp",
-         "cases": {"quick": 12000, "thorough": 120000},
+         "cases": {"quick": 12000, "thorough": 60000},
          "params": {"mode": "garbage", "maxVerts": {"quick": 300, "thorough": 3000}, "minRing": 2},
          "env": {"ASAN_OPTIONS": _ASAN}, "case_timeout": 120},
         {"name": "corpus", "variant": "asan", "harness": "c10_triangulate.cpp",
